@@ -63,7 +63,7 @@ keys of the case dicts; domains named '...[sweep]' and C11/fresh-interpreter, fu
   order in tables   DataFrame round trip with the `channels` argument in reversed order and with the rows of the table handed over
                     in reversed order (op ['df', chd, True, 'perm' | 'rows']; sweep domains only).
   not applicable    competitor sets (no optimality claim), existing output files (C16), remainders.
-  PENDING TRIAGE    (fail on the unchanged tree, registrations behind `if False:  # pending triage`)
+  PENDING TRIAGE    (fail on the unchanged tree, registrations behind `if False:  # pending triage`)   [TRIAGED since: every class repaired in /repo, recorded as open finding, or dropped -- DESIGN.md 10.10]
                     time_as_observations / time_as_channels / to_df with a vector-valued descriptor on the axis they rearrange
                     (K_VEC_TAO, K_VEC_TAC, K_VEC_DF); bin_time with the bins given as python lists (K_BIN_PYLIST).
 
